@@ -243,7 +243,51 @@ fn const_boundary_program(rng: &mut Rng) -> String {
     }
 }
 
+/// Every kind of global (cbuffer member, ConstantBuffer, static, groupshared, texture, raw / structured buffers, a helper call)
+/// read in every statement position of an entry point: conditions of if / while / do-while / for, for initialiser and step, switch
+/// selector and bodies, ternaries, initialiser lists, subscripts, call arguments, nested blocks, compound assignments, stores
+fn resource_positions_program(rng: &mut Rng) -> String {
+    const READS: &[&str] = &["cb_n", "(uint)cb_v.x", "s_n", "gs_n[1]", "sb[0]", "rw.Load(0)", "(uint)tex.Load(int3(0, 0, 0)).x", "cbo.m", "helper(r)", "NS::ns_k", "(uint)NS::cb_w"];
+    const POSITIONS: &[&str] = &[
+        "if (@ > 1u) { r += @; } else { r -= 1u; }",
+        "while (r < @ && r < 64u) { r += 1u + @; }",
+        "do { r += 1u; } while (r < @ && r < 64u);",
+        "for (uint i = @ & 3u; i < (@ & 7u); i += 1u + (@ & 1u)) { r += i; }",
+        "switch (@ & 3u) { case 0: r += @; break; case 1: case 2: r ^= @; break; default: r -= @; }",
+        "r = @ > 2u ? @ : r;",
+        "{ uint arr[4] = { @, 1u, 2u, 3u }; r += arr[@ & 3u]; }",
+        "r += helper(@);",
+        "{ uint q = @; { r += q + @; } }",
+        "r <<= (@ & 3u);",
+        "rw.Store(4, @);",
+        "gs_n[@ & 3u] = @;",
+        "s_n += @;",
+        "if (@ == 0u) return;",
+        "r += (@, @);",
+    ];
+    let mut body = String::new();
+    let n = 2 + rng.below(7);
+    for _ in 0..n {
+        let mut stmt = rng.pick(POSITIONS).to_string();
+        while let Some(i) = stmt.find('@') {
+            let read: &str = *rng.pick(READS);
+            stmt.replace_range(i..i + 1, read);
+        }
+        body.push_str("    ");
+        body.push_str(&stmt);
+        body.push('\n');
+    }
+    let threads = *rng.pick(&["4, 1, 1", "8, 8, 1", "64, 1, 1"]);
+    format!(
+        "struct Elem {{ uint m; float w; }};\ncbuffer CB {{ float4 cb_v; uint cb_n; }}\nnamespace NS {{ cbuffer CB2 {{ float cb_w; }} static const uint ns_k = 2u; }}\nstatic uint s_n = 3u;\ngroupshared uint gs_n[4];\nTexture2D<float4> tex;\nRWByteAddressBuffer rw;\nStructuredBuffer<uint> sb;\nConstantBuffer<Elem> cbo;\nuint helper(uint x) {{ return x + cb_n + s_n; }}\n[numthreads({})]\nvoid CSMain(uint3 id : SV_DispatchThreadID)\n{{\n    uint r = id.x;\n{}    rw.Store(0, r);\n}}\nPipeline P {{ ComputeShader = CSMain; }}\n",
+        threads, body
+    )
+}
+
 fn grammar_case(rng: &mut Rng) -> Case {
+    if rng.chance(1, 6) {
+        return single("grammar:resource-positions", resource_positions_program(rng));
+    }
     if rng.chance(1, 4) {
         return single("grammar:constant-boundary", const_boundary_program(rng));
     }
